@@ -44,11 +44,12 @@ const (
 	opTamper
 	opPolicy
 	opCrashAll
+	opRefused
 	nOps
 )
 
 var opNames = [...]string{"end", "append", "joinlive", "send", "deliver", "publish", "crash", "restart", "partition", "heal",
-	"clockjump", "special", "setid", "algebra", "stall", "iter", "bounded", "byz", "denied", "reader", "tamper", "policy", "crashall"}
+	"clockjump", "special", "setid", "algebra", "stall", "iter", "bounded", "byz", "denied", "reader", "tamper", "policy", "crashall", "refused"}
 
 type Profile struct {
 	Prop    string
@@ -80,6 +81,7 @@ func baseWeights() [nOps]int {
 	w[opSetID] = 1
 	w[opAlgebra] = 2
 	w[opStall] = 2
+	w[opRefused] = 3
 	return w
 }
 
@@ -100,6 +102,7 @@ type Node struct {
 	Durable *durablePtr
 	Stalled int // remaining steps of stall
 	ClockAhead bool
+	Pol     *policy
 
 	// C05 monitor state (per instance generation)
 	seen     map[string]string
@@ -169,6 +172,14 @@ func (w *World) logOpts() *ipfslog.LogOptions {
 	return &ipfslog.LogOptions{ID: w.LogID, SortFn: w.sortFn(), IO: w.IO}
 }
 
+// nodeOpts: options for a replica's own log instance (its access controller is a policy the
+// harness can switch to "deny" for a single append).
+func (w *World) nodeOpts(n *Node) *ipfslog.LogOptions {
+	o := w.logOpts()
+	o.AccessController = n.Pol
+	return o
+}
+
 func (w *World) newLog(wr *Writer, o *ipfslog.LogOptions) *ipfslog.IPFSLog {
 	l, err := ipfslog.NewLog(w.St, wr.ID, o)
 	if err != nil {
@@ -205,8 +216,8 @@ func NewWorld(r *Run, p *Profile) *World {
 	}
 	ws := Writers()
 	for i := 0; i < nrep; i++ {
-		n := &Node{Idx: i, W: ws[i%w.NW], Set: map[string]bool{}, Up: true}
-		n.Log = w.newLog(n.W, w.logOpts())
+		n := &Node{Idx: i, W: ws[i%w.NW], Set: map[string]bool{}, Up: true, Pol: &policy{}}
+		n.Log = w.newLog(n.W, w.nodeOpts(n))
 		w.resetMonitor(n)
 		w.Nodes = append(w.Nodes, n)
 	}
@@ -348,10 +359,10 @@ func (w *World) doAppend() {
 	pin := false
 	if w.P.Check["C17"] {
 		pin = w.R.Bool("pin", 1, 4)
-		if w.F.adderr && w.R.Bool("add-error", 1, 8) {
-			w.appendWithDiskError(n, pl, pc)
-			return
-		}
+	}
+	if w.F.adderr && w.R.Bool("add-error", 1, 10) {
+		w.appendWithDiskError(n, pl, pc)
+		return
 	}
 	e, err := n.Log.Append(w.ctx, pl, &ipfslog.AppendOptions{PointerCount: pc, Pin: pin})
 	if err != nil {
@@ -415,8 +426,14 @@ func (w *World) checkAppend(n *Node, e iface.IPFSLogEntry, me *MEntry, before []
 	for p := pc; p > 1; p >>= 1 {
 		lg++
 	}
-	if len(me.Refs) > lg+2 {
-		r.Violate("C04:refs", "%d references for pointer count %d (more than log2+2)", len(me.Refs), pc)
+	// "at most logarithmic in the requested pointer count": log2(p) picks, plus one for the
+	// always-included oldest known entry when p exceeds the log; none at all for p <= 1
+	bound := lg
+	if pc > 1 {
+		bound = lg + 1
+	}
+	if len(me.Refs) > bound {
+		r.Violate("C04:refs", "%d references for pointer count %d (more than log2(p)%s)", len(me.Refs), pc, map[bool]string{true: "+1", false: ""}[pc > 1])
 	}
 	if len(me.Refs) > 0 {
 		r.Probe("append-with-refs")
@@ -644,7 +661,7 @@ func (w *World) restart(n *Node) {
 	n.Up = true
 	n.ClockAhead = false
 	if n.Durable == nil {
-		n.Log = w.newLog(n.W, w.logOpts())
+		n.Log = w.newLog(n.W, w.nodeOpts(n))
 		n.Set = map[string]bool{}
 		w.R.Logf("restart n%d empty", n.Idx)
 		w.resetMonitor(n)
@@ -655,9 +672,9 @@ func (w *World) restart(n *Node) {
 	conc := w.R.Choose("load-conc", 6)
 	w.driven(func(ctx context.Context) {
 		if n.Durable.kind == 0 {
-			l, err = ipfslog.NewFromMultihash(ctx, w.St, n.W.ID, n.Durable.c, w.logOpts(), &ipfslog.FetchOptions{Concurrency: conc})
+			l, err = ipfslog.NewFromMultihash(ctx, w.St, n.W.ID, n.Durable.c, w.nodeOpts(n), &ipfslog.FetchOptions{Concurrency: conc})
 		} else {
-			l, err = ipfslog.NewFromEntryHash(ctx, w.St, n.W.ID, n.Durable.c, w.logOpts(), &ipfslog.FetchOptions{Concurrency: conc})
+			l, err = ipfslog.NewFromEntryHash(ctx, w.St, n.W.ID, n.Durable.c, w.nodeOpts(n), &ipfslog.FetchOptions{Concurrency: conc})
 		}
 	})
 	if err != nil {
@@ -725,7 +742,7 @@ func (w *World) doClockJump() {
 		return
 	}
 	cur := n.Log.Clock.GetTime()
-	o := w.logOpts()
+	o := w.nodeOpts(n)
 	o.Entries = n.Log.GetEntries()
 	o.Heads = n.Log.Heads().Slice()
 	o.Clock = entry.NewLamportClock(n.W.ID.PublicKey, cur+delta)
@@ -1255,6 +1272,8 @@ func (w *World) dispatch(op int) {
 		w.doStall()
 	case opCrashAll:
 		w.doCrashAll()
+	case opRefused:
+		w.doRefused()
 	default:
 		w.dispatchExt(op)
 	}
